@@ -1,6 +1,7 @@
 import JSight.Props.C06
 import JSight.TreeStrip
 import JSight.LoaderProofs
+import JSight.RuleNameSpelling
 /-!
 # C13 — Meaning is invariant under surface syntax: the part that is a theorem
 
@@ -12,6 +13,8 @@ yield the same sequence of event types (spans move with the tokens). Property or
 Schema side, line ends: in the loader model (`Loader`, compared with the real `GetAST()` by `loader-diff`)
 a new-line event directly after another one changes nothing, so LF / CR / CRLF line ends and blank lines
 load identically (`C13_newline_idempotent`, `C13_newline_run_absorbed`).
+Quoted versus bare rule names: the name the loader dispatches on (`Loader.nameOf` = `TrimSpaces().Unquote()` of
+the name token) is the same for `name` and `"name"` with any blanks around (`C13_rule_name_spelling`).
 String escapes, comments, annotation spelling go through unquoting, the schema scanner and the loader:
 validated against the code (harness `c13-metamorphic`, `schema-diff`, `unquote-diff`, `loader-diff`).
 -/
@@ -33,6 +36,13 @@ theorem C13_whitespace_invariant (allow : Bool) (v v' : JA) (hv : v.Valid) (hv' 
 theorem C13_newline_idempotent (src : Array UInt8) (st st' : Loader.St) (e1 e2 : SchemaScan.Ev)
     (h1 : e1.ty = .newLine) (h2 : e2.ty = .newLine) (h : Loader.step src st e1 = .ok st') :
     Loader.step src st' e2 = .ok st' := Loader.C13_newline_idempotent src st st' e1 e2 h1 h2 h
+
+/-- quoted versus bare rule names: both spellings, with any surrounding blanks, give the loader the same name -/
+theorem C13_rule_name_spelling (n w1 w2 : List UInt8) (hn : Loader.plainName n)
+    (h1 : ∀ c ∈ w1, Loader.isBlank c = true) (h2 : ∀ c ∈ w2, Loader.isBlank c = true) :
+    Unquote.unquote (Loader.trimSpaces (w1 ++ n ++ w2)) = n ∧
+    Unquote.unquote (Loader.trimSpaces (w1 ++ (34 :: (n ++ [34])) ++ w2)) = n :=
+  Loader.C13_rule_name_spelling n w1 w2 hn h1 h2
 
 theorem C13_newline_run_absorbed (src : Array UInt8) (st st' : Loader.St) (e1 : SchemaScan.Ev) (es : List SchemaScan.Ev)
     (h1 : e1.ty = .newLine) (hes : ∀ e ∈ es, e.ty = .newLine) (h : Loader.step src st e1 = .ok st') :
